@@ -1873,8 +1873,12 @@ class Filter(Blockwise):
         if isinstance(self.predicate, Or):
             result = rewrite_filters(self.predicate)
             if result._name != self.predicate._name:
+                new = type(self)(self.frame, result)
                 return type(parent)(
-                    type(self)(self.frame, result), *parent.operands[1:]
+                    *[
+                        new if isinstance(op, Expr) and op._name == self._name else op
+                        for op in parent.operands
+                    ]
                 )
 
         if isinstance(parent, (FilterAlign, Filter)) and not isinstance(
